@@ -35,9 +35,11 @@ Definition ideal_b (S : uset) : bool :=
 
 Definition bf_complete (S : uset) : bool := S UBFhash && S UBFbody && S UBFtxs && S UBFrcpts && S UBFic.
 (** the crash states from which a restart succeeds, is consistent and continues like a node
-    that never crashed: index batch and blockfile landed together or not at all, and the
-    index batch never without the state batch *)
-Definition Good (S : uset) : bool :=
+    that never crashed: if the index batch is durable then so are the whole blockfile append
+    and the state batch.  (On the tree as pinned also "blockfile complete -> index batch
+    durable" was needed, [Good_pinned]; that defect was repaired in /repo, see [restart_bf].) *)
+Definition Good (S : uset) : bool := implb (S UIndex) (bf_complete S && S UState).
+Definition Good_pinned (S : uset) : bool :=
   Bool.eqb (S UIndex) (bf_complete S) && implb (S UIndex) (S UState).
 
 (** encoding of a unit set as a number (bit i = unit i of [all_units]) for the driver *)
@@ -181,10 +183,17 @@ Section WithHash.
 End WithHash.
 
 (** * Restart *)
+(** NewBlockFile.repair, then (NewChainLedgerImpl, repaired in /repo: [trunc] = true) drop the
+    one block a crash can leave in the blockfile beyond the chain meta.  [trunc] = false is the
+    tree as pinned. *)
+Definition restart_bf (trunc : bool) (cm : cmeta) (bf : bfile) : bfile :=
+  let r := bf_repair bf in
+  if trunc && (bf_blocks r =? cm_height cm + 1) then bf_truncate_blocks (cm_height cm) r else r.
+
 Inductive rres := RecOk (l : ledger) | RecErr (code : N).
-Definition recover (d : disk) : rres :=
-  let bf := bf_repair (dk_bf d) in              (* NewBlockFile *)
+Definition recover_with (trunc : bool) (d : disk) : rres :=
   let cm := load_meta (dk_ix d) in              (* NewChainLedgerImpl *)
+  let bf := restart_bf trunc cm (dk_bf d) in    (* NewBlockFile + NewChainLedgerImpl *)
   match state_open (dk_state d) with            (* NewSimpleLedger *)
   | None => RecErr 4
   | Some m =>
@@ -194,6 +203,7 @@ Definition recover (d : disk) : rres :=
       | (c, _, _) => RecErr c
       end
   end.
+Definition recover : disk -> rres := recover_with true.
 
 (** * Observables of a live ledger: every chain lookup, state version, running state root,
     and the state data *)
@@ -223,11 +233,11 @@ Section Experiment.
   Definition continue_from (l : ledger) (all : list bspec) : option ledger :=
     commit_all hash_hdr root sroot l (skipn (N.to_nat (height l)) all).
 
-  Definition experiment (U : universe) (pre : list bspec) (b : bspec) (post : list bspec) (S : uset) : option outcome :=
+  Definition experiment_with (trunc : bool) (U : universe) (pre : list bspec) (b : bspec) (post : list bspec) (S : uset) : option outcome :=
     match commit_all hash_hdr root sroot ledger_empty pre with
     | None => None
     | Some ln =>
-        match recover (crash hash_hdr root sroot S ln b) with
+        match recover_with trunc (crash hash_hdr root sroot S ln b) with
         | RecErr c => Some (mkOut c None 7 None)
         | RecOk l =>
             match continue_from l (pre ++ b :: post) with
@@ -237,6 +247,8 @@ Section Experiment.
         end
     end.
 
+  Definition experiment := experiment_with true.
+
   (** the reference: a node that never crashed *)
   Definition reference (U : universe) (all : list bspec) (k : nat) : option lobs :=
     match commit_all hash_hdr root sroot ledger_empty (firstn k all) with
@@ -245,20 +257,40 @@ Section Experiment.
     end.
 
   (** ** the property of one experiment, as a predicate on an outcome (the implementation's or
-      the model's): the restart succeeds, the ledger observed equals the uncrashed reference at
-      the previous or the new height (this is "block store, index store and state store
-      mutually consistent, head readable, head state root = running state root", because the
-      reference has these properties: [CrashProofs.sane_observable]), and the continuation
-      reaches the end with the reference's observations *)
+      the model's), relative to the observations [rn], [rn1], [rN] of a node that never crashed
+      at the previous height, the new height and the end: the restart succeeds; the ledger
+      observed is consistent in itself ([consistent_b]: chain invariant up to the head, state
+      version = chain height, running state root = state root of the head block, one delta per
+      height) and is the uncrashed ledger of the previous or of the new height; the
+      continuation reaches the end with the uncrashed node's observations.  "No block below
+      the head is lost" is part of the equality with the reference. *)
+  Definition head_state_root (o : obs) : N :=
+    match nth_error (o_heights o) (N.to_nat (cm_height (o_meta o))) with
+    | Some ho => match ho_full ho with ROk b => h_state (b_hdr b) | _ => 0 end
+    | None => 0
+    end.
+  Definition consistent_b (x : lobs) : bool :=
+    chain_inv_b hash_hdr root (lo_chain x)
+    && (lo_version x =? cm_height (o_meta (lo_chain x)))
+    && (if cm_height (o_meta (lo_chain x)) =? 0 then lo_root x =? 0
+        else lo_root x =? head_state_root (lo_chain x))
+    && (N.of_nat (length (lo_data x)) =? cm_height (o_meta (lo_chain x))).
   Definition option_lobs_eqb (a b : option lobs) : bool :=
     match a, b with Some x, Some y => lobs_eqb x y | _, _ => false end.
-  Definition outcome_ok_b (U : universe) (pre : list bspec) (b : bspec) (post : list bspec) (o : outcome) : bool :=
-    let all := pre ++ b :: post in
+  Definition outcome_ok_b (rn rn1 rN : option lobs) (o : outcome) : bool :=
     (oc_rec o =? 0)
-    && (option_lobs_eqb (oc_obs1 o) (reference U all (length pre))
-        || option_lobs_eqb (oc_obs1 o) (reference U all (S (length pre))))
+    && match oc_obs1 o with Some x => consistent_b x | None => false end
+    && (option_lobs_eqb (oc_obs1 o) rn || option_lobs_eqb (oc_obs1 o) rn1)
     && (oc_cont o =? 0)
-    && option_lobs_eqb (oc_obs2 o) (reference U all (length all)).
+    && option_lobs_eqb (oc_obs2 o) rN.
+  (** which conjunct fails first: 1 restart failed, 2 restarted ledger inconsistent in itself,
+      3 not the uncrashed ledger at n or n+1, 4 continuation died, 5 final observations differ *)
+  Definition outcome_fail (rn rn1 rN : option lobs) (o : outcome) : N :=
+    if negb (oc_rec o =? 0) then 1
+    else if negb (match oc_obs1 o with Some x => consistent_b x | None => false end) then 2
+    else if negb (option_lobs_eqb (oc_obs1 o) rn || option_lobs_eqb (oc_obs1 o) rn1) then 3
+    else if negb (oc_cont o =? 0) then 4
+    else if negb (option_lobs_eqb (oc_obs2 o) rN) then 5 else 0.
 End Experiment.
 
 (** * Oracle instances for running (tables produced by the driver by really hashing) *)
@@ -266,48 +298,49 @@ Definition oracle_sroot (tbl : list ((N * N) * N)) (prev delta : N) : N :=
   match find (fun p => (fst (fst p) =? prev) && (snd (fst p) =? delta)) tbl with
   | Some p => snd p | None => 0 end.
 
-Definition outcome_eqb (a b : outcome) : bool :=
-  (oc_rec a =? oc_rec b) && (oc_cont a =? oc_cont b)
-  && match oc_obs1 a, oc_obs1 b with Some x, Some y => lobs_eqb x y | None, None => true | _, _ => false end
-  && match oc_obs2 a, oc_obs2 b with Some x, Some y => lobs_eqb x y | None, None => true | _, _ => false end.
-
 Record ccase := mkCCase {
   cc_univ : universe; cc_pre : list bspec; cc_b : bspec; cc_post : list bspec; cc_units : N;
   cc_impl : outcome;
+  cc_refs : option lobs * option lobs * option lobs;    (* the implementation's own uncrashed run at n, n+1, end *)
   cc_hash_tbl : list (header * N); cc_root_tbl : list (list N * N); cc_sroot_tbl : list ((N * N) * N) }.
 
-(** verdicts: (0,_) property holds on the implementation's outcome and model = implementation;
-    (2,k) the property is false on the implementation's outcome, k = 1 restart failed, 2 restarted
-    ledger is not the reference at n or n+1, 3 continuation died, 4 final observations differ;
-    (1,_) model and implementation differ; (3,_) outside the model's domain *)
+(** verdicts: (0,_) fine; (2,k) the property is false on the implementation's outcome
+    ([outcome_fail] = k); (1,k) model and implementation differ (k = 1 restart code, 2 restarted
+    observation, 3 continuation code, 4 final observation, 5..7 the uncrashed reference at n, n+1,
+    end); (3,_) outside the model's domain *)
 Definition judge_crash_prop (c : ccase) : verdict :=
   let hh := oracle_hash (cc_hash_tbl c) in
   let rt := oracle_root (cc_root_tbl c) in
-  let sr := oracle_sroot (cc_sroot_tbl c) in
-  let o := cc_impl c in
-  let all := cc_pre c ++ cc_b c :: cc_post c in
+  let '(rn, rn1, rN) := cc_refs c in
   if negb (tbl_inj_b hdr_eqb (cc_hash_tbl c) && tbl_nonzero_b (cc_hash_tbl c)) then V_domain 0
-  else if outcome_ok_b hh rt sr (cc_univ c) (cc_pre c) (cc_b c) (cc_post c) o then V_ok
-  else if negb (oc_rec o =? 0) then V_propfalse 1
-  else if negb (option_lobs_eqb (oc_obs1 o) (reference hh rt sr (cc_univ c) all (length (cc_pre c)))
-                || option_lobs_eqb (oc_obs1 o) (reference hh rt sr (cc_univ c) all (S (length (cc_pre c)))))
-       then V_propfalse 2
-  else if negb (oc_cont o =? 0) then V_propfalse 3
-  else V_propfalse 4.
+  else match outcome_fail hh rt rn rn1 rN (cc_impl c) with
+       | 0 => (* the reference itself must be consistent, or the comparison means nothing *)
+           if match rn, rn1, rN with
+              | Some a, Some b, Some d => consistent_b hh rt a && consistent_b hh rt b && consistent_b hh rt d
+              | _, _, _ => false end
+           then V_ok else V_propfalse 6
+       | k => V_propfalse k
+       end.
+Definition olobs_eqb (a b : option lobs) : bool :=
+  match a, b with Some x, Some y => lobs_eqb x y | None, None => true | _, _ => false end.
 Definition judge_crash_model (c : ccase) : verdict :=
   let hh := oracle_hash (cc_hash_tbl c) in
   let rt := oracle_root (cc_root_tbl c) in
   let sr := oracle_sroot (cc_sroot_tbl c) in
+  let all := cc_pre c ++ cc_b c :: cc_post c in
+  let '(rn, rn1, rN) := cc_refs c in
   match experiment hh rt sr (cc_univ c) (cc_pre c) (cc_b c) (cc_post c) (uset_of (cc_units c)) with
   | None => V_domain 1
-  | Some m => if outcome_eqb m (cc_impl c) then V_ok
-              else if negb (oc_rec m =? oc_rec (cc_impl c)) then V_mismatch 1
-              else if negb (match oc_obs1 m, oc_obs1 (cc_impl c) with
-                            | Some x, Some y => lobs_eqb x y | None, None => true | _, _ => false end)
-                   then V_mismatch 2
-              else if negb (oc_cont m =? oc_cont (cc_impl c)) then V_mismatch 3
-              else V_mismatch 4
+  | Some m =>
+      if negb (oc_rec m =? oc_rec (cc_impl c)) then V_mismatch 1
+      else if negb (olobs_eqb (oc_obs1 m) (oc_obs1 (cc_impl c))) then V_mismatch 2
+      else if negb (oc_cont m =? oc_cont (cc_impl c)) then V_mismatch 3
+      else if negb (olobs_eqb (oc_obs2 m) (oc_obs2 (cc_impl c))) then V_mismatch 4
+      else if negb (olobs_eqb (reference hh rt sr (cc_univ c) all (length (cc_pre c))) rn) then V_mismatch 5
+      else if negb (olobs_eqb (reference hh rt sr (cc_univ c) all (S (length (cc_pre c)))) rn1) then V_mismatch 6
+      else if negb (olobs_eqb (reference hh rt sr (cc_univ c) all (length all)) rN) then V_mismatch 7
+      else V_ok
   end.
-(** what the model says about the unit set itself *)
+(** what the theorem says about the unit set itself: (0,_) in Good, (2,0) not *)
 Definition judge_crash_good (c : ccase) : verdict :=
   if Good (uset_of (cc_units c)) then V_ok else V_propfalse 0.
